@@ -913,3 +913,252 @@ def load_known_fns():
     if not os.path.exists(fn):
         return None
     return {l.strip() for l in open(fn) if l.strip() and not l.startswith("#")}
+
+
+# ----------------------------------------------------------------------------------------
+# scalar replacement of small struct locals introduced by a refactoring
+# ----------------------------------------------------------------------------------------
+# `let mut min = MinCandidate { pair, hits, idx }; .. min = MinCandidate { .. }; .. min.hits ..` says the same as four
+# variables `min_key, min_hits, min_id, min_cost`.  A local whose type is a plain-data struct that does not exist in
+# the reference tree (a type a refactoring introduced), or a part of such a local, is split into one local per field:
+# whole assignments become field-wise assignments, `x.f` becomes the field's local, a whole use (`v.push(min.pair)`)
+# is re-assembled into a temporary right before it.  The rules then see the variables they are written for.
+
+_SCALAR_TYS = {"u8", "u16", "u32", "u64", "u128", "usize", "i8", "i16", "i32", "i64", "i128", "isize", "bool", "char", "f32", "f64"}
+
+
+def _plain_struct(ty, adts, depth=0):
+    a = adts.get(ty)
+    if not a or a.get("kind") != "Struct" or len(a.get("variants", [])) != 1 or "<" in ty or depth > 3:
+        return None
+    fs = a["variants"][0]["fields"]
+    if not fs or not all(f["ty"] in _SCALAR_TYS or _plain_struct(f["ty"], adts, depth + 1) for f in fs):
+        return None
+    return fs
+
+
+def _walk_places(node, fn, ctx=None):
+    """Calls fn(container, key, place, ctx) for every place dict found under node (ctx: the dict key it sits under)."""
+    if isinstance(node, list):
+        for i, x in enumerate(node):
+            if is_place(x):
+                fn(node, i, x, ctx)
+            else:
+                _walk_places(x, fn, ctx)
+    elif isinstance(node, dict):
+        for k, v in node.items():
+            if k in ("sp", "fsp"):
+                continue
+            if is_place(v):
+                fn(node, k, v, k)
+            else:
+                _walk_places(v, fn, k)
+
+
+def split_struct_locals(raw, adts, is_new_type, max_rounds=4):
+    """Returns (raw', number of locals split).  raw is not modified."""
+    n_args = raw.get("arg_count", 0) or 0
+    work = None
+    derived = set()
+    n_split = 0
+    for _round in range(max_rounds):
+        src = work if work is not None else raw
+        cands = []
+        for L, loc in enumerate(src["locals"]):
+            if L == 0 or L <= n_args:
+                continue
+            fs = _plain_struct(loc["ty"], adts)
+            if fs and (is_new_type(loc["ty"]) or L in derived):
+                cands.append((L, fs))
+        progressed = False
+        for L, fs in cands:
+            r = _split_one(src, L, fs, adts)
+            if r is not None:
+                src, new_locals = r
+                work = src
+                derived |= set(new_locals)
+                n_split += 1
+                progressed = True
+        if not progressed:
+            break
+    return (work if work is not None else raw), n_split
+
+
+def _split_one(raw, L, fs, adts):
+    ty = raw["locals"][L]["ty"]
+    fproj = [".%d:%s@%s" % (i, f["name"], ty) for i, f in enumerate(fs)]
+
+    def field_of(p):
+        """index of the field a projection list starts with, or None"""
+        if not p or not isinstance(p[0], str) or not p[0].startswith("."):
+            return None
+        m = re.match(r"^\.(\d+):", p[0])
+        return int(m.group(1)) if m and int(m.group(1)) < len(fs) else None
+
+    # ---- feasibility: every mention of L is a whole assignment from an aggregate / a place, a field access, a whole
+    # operand use, a storage marker or a drop
+    ok = [True]
+    has_field_use = [False]
+    has_whole_def = [False]
+    for bb in raw["blocks"]:
+        for st in bb["stmts"]:
+            k = st["k"]
+            if k in ("live", "dead"):
+                continue
+            if k != "assign":
+                def chk(c, key, pl, ctx):
+                    if pl["l"] == L:
+                        ok[0] = False
+                _walk_places(st, chk)
+                continue
+            pl, rv = st["pl"], st["rv"]
+            if pl["l"] == L:
+                if not pl["p"]:
+                    has_whole_def[0] = True
+                    if rv["k"] == "agg" and rv.get("ak") == "adt" and rv.get("adt") == ty and len(rv.get("fields", [])) == len(fs):
+                        pass
+                    elif rv["k"] == "use" and rv["op"].get("k") in ("copy", "move") and rv["op"]["pl"]["l"] != L:
+                        pass
+                    else:
+                        ok[0] = False
+                elif field_of(pl["p"]) is None:
+                    ok[0] = False
+                else:
+                    has_field_use[0] = True
+
+            def chk2(c, key, p2, ctx):
+                if p2["l"] != L or p2 is pl:
+                    return
+                if ctx == "pl" and rv.get("k") in ("ref", "addr") and not p2["p"]:
+                    ok[0] = False   # the whole struct is borrowed
+                elif p2["p"] and field_of(p2["p"]) is None:
+                    ok[0] = False
+                elif p2["p"]:
+                    has_field_use[0] = True
+            _walk_places(rv, chk2)
+        t = bb["term"]
+        if t is None:
+            continue
+        if t["k"] == "drop":
+            if t["pl"]["l"] == L and t["pl"]["p"]:
+                ok[0] = False
+            continue
+
+        def chk3(c, key, p3, ctx):
+            if p3["l"] != L:
+                return
+            if p3["p"] and field_of(p3["p"]) is None:
+                ok[0] = False
+            elif p3["p"]:
+                has_field_use[0] = True
+            elif ctx == "dest":
+                has_whole_def[0] = True
+        _walk_places(t, chk3)
+    for d in raw.get("debug", []):
+        if "pl" in d and d["pl"]["l"] == L and d["pl"]["p"]:
+            ok[0] = False
+    if not ok[0] or not has_field_use[0] or not has_whole_def[0]:
+        return None
+
+    raw = copy.deepcopy(raw)
+    S = Splicer(raw)
+    name = next((d["name"] for d in raw.get("debug", []) if "pl" in d and d["pl"]["l"] == L and not d["pl"]["p"] and d.get("name")), None)
+    fl = []
+    for i, f in enumerate(fs):
+        nl = S.new_local(f["ty"], user=bool(name))
+        fl.append(nl)
+        if name:
+            raw["debug"].append({"name": "%s.%s" % (name, f["name"]), "pl": P(nl), "arg": None})
+    raw["debug"] = [d for d in raw["debug"] if not ("pl" in d and d["pl"]["l"] == L)]
+
+    def fix_field(pl):
+        i = field_of(pl["p"])
+        pl["l"] = fl[i]
+        pl["p"] = pl["p"][1:]
+
+    def whole_tmp(sp):
+        """statements assembling the current value of L into a fresh temporary; returns (tmp, [stmts])"""
+        tmp = S.new_local(ty, user=False)
+        agg = {"k": "agg", "ak": "adt", "adt": ty, "variant": ty.split("::")[-1], "fnames": [f["name"] for f in fs], "fields": [cp(P(x)) for x in fl]}
+        return tmp, [assign(P(tmp), agg, sp)]
+
+    for bi in range(len(raw["blocks"])):
+        bb = raw["blocks"][bi]
+        out = []
+        for st in bb["stmts"]:
+            k = st["k"]
+            sp = st.get("sp")
+            if k in ("live", "dead"):
+                if st.get("l") == L:
+                    for x in fl:
+                        out.append(dict(st, l=x))
+                else:
+                    out.append(st)
+                continue
+            if k != "assign":
+                out.append(st)
+                continue
+            pl, rv = st["pl"], st["rv"]
+            pre = []
+
+            def fix_use(c, key, p2, ctx):
+                if p2["l"] != L or p2 is pl:
+                    return
+                if p2["p"]:
+                    fix_field(p2)
+                else:
+                    tmp, sts = whole_tmp(sp)
+                    pre.extend(sts)
+                    p2["l"] = tmp
+            if pl["l"] == L and not pl["p"]:
+                if rv["k"] == "agg":
+                    _walk_places(rv, fix_use)
+                    out.extend(pre)
+                    # evaluate every field operand first (an operand may read the old value of another field)
+                    tmps = []
+                    for i, op in enumerate(rv["fields"]):
+                        tl = S.new_local(fs[i]["ty"], user=False)
+                        tmps.append(tl)
+                        out.append(assign(P(tl), use(op), sp))
+                    for i, tl in enumerate(tmps):
+                        out.append(assign(P(fl[i]), use(mv(P(tl))), sp))
+                else:
+                    src = rv["op"]["pl"]
+                    for i in range(len(fs)):
+                        out.append(assign(P(fl[i]), use(cp({"l": src["l"], "p": list(src["p"]) + [fproj[i]]})), sp))
+                continue
+            if pl["l"] == L:
+                fix_field(pl)
+            _walk_places(rv, fix_use)
+            out.extend(pre)
+            out.append(st)
+        bb["stmts"] = out
+        t = bb["term"]
+        if t is None:
+            continue
+        sp = t.get("sp")
+        if t["k"] == "drop" and t["pl"]["l"] == L:
+            bb["term"] = goto(t["t"], sp)
+            continue
+        pre = []
+        post_dest = [None]
+
+        def fix_t(c, key, p3, ctx):
+            if p3["l"] != L:
+                return
+            if p3["p"]:
+                fix_field(p3)
+            elif ctx == "dest":
+                tmp = S.new_local(ty, user=False)
+                p3["l"] = tmp
+                post_dest[0] = tmp
+            else:
+                tmp, sts = whole_tmp(sp)
+                pre.extend(sts)
+                p3["l"] = tmp
+        _walk_places(t, fix_t)
+        bb["stmts"].extend(pre)
+        if post_dest[0] is not None and t.get("t") is not None:
+            nb = S.new_block([assign(P(fl[i]), use(cp({"l": post_dest[0], "p": [fproj[i]]})), sp) for i in range(len(fs))], goto(t["t"], sp))
+            t["t"] = nb
+    return raw, fl
